@@ -18,7 +18,7 @@ Hunter (property stated against the public API / real processes, Python oracle i
 import os, sys, io, re, json, codecs, glob, shutil, subprocess, tempfile, itertools, logging, warnings
 from concurrent.futures import ThreadPoolExecutor
 from checklib import codec
-from checklib.model import run_model
+from checklib.model import run_model as _run_model
 from checklib.shrink import shrink_list
 
 MANIFEST = dict(
@@ -60,6 +60,26 @@ FP_CR = "save-open:cr-translated"
 
 
 # ---------------------------------------------------------------- processes
+def run_model(component, cases):
+    """checklib.model.run_model with a large stack for the driver process only: the extracted list functions
+    (and the driver's List.map) are not tail recursive and validate cases carry up to ~10^6 integers.
+    The soft limit is raised around the call and restored, so threads created elsewhere keep small stacks."""
+    import resource
+    soft, hard = resource.getrlimit(resource.RLIMIT_STACK)
+    want = (1 << 32) if hard == resource.RLIM_INFINITY else min(hard, 1 << 32)
+    raised = False
+    try:
+        if soft != resource.RLIM_INFINITY and soft < want:
+            resource.setrlimit(resource.RLIMIT_STACK, (want, hard)); raised = True
+    except (ValueError, OSError):
+        pass
+    try:
+        return _run_model(component, cases)
+    finally:
+        if raised:
+            resource.setrlimit(resource.RLIMIT_STACK, (soft, hard))
+
+
 def cli_env():
     e = dict(os.environ)
     e["PYTHONPATH"] = REPO
@@ -709,16 +729,16 @@ def judge_validate(d, patterns, version, expand, rc, so):
                       % (len(want), len(got), want[:1])))
     ok_all = problems == 0
     if (rc == 0) != ok_all or (problems < 256 and rc != problems):
-        if n_pf > 0 and n_msg < 256 and rc == n_msg:
-            fp = FP_PARSE
-        elif n_pf == 0 and n_msg >= 256 and rc == n_msg % 256:
-            fp = FP_MOD
-        elif n_pf > 0 and rc == n_msg % 256:
-            fp = FP_PARSE + "+mod-256"
+        # one fingerprint per root cause: the observed status n_msg mod 256 is what "parse failures are not
+        # counted" (applies when a file failed to parse) and "status wraps modulo 256" (applies from 256 messages)
+        # produce, separately or together; any other status is a different defect
+        if rc == n_msg % 256 and (n_pf > 0 or n_msg >= 256):
+            fps = ([FP_PARSE] if n_pf > 0 else []) + ([FP_MOD] if n_msg >= 256 else [])
         else:
-            fp = "validate:exit-status"
-        fails.append((fp, "exit status %d for %d file(s) with %d unparseable and %d validation message(s) (%d problems): expected %s"
-                      % (rc, len(files), n_pf, n_msg, problems, "0" if ok_all else ("%d" % problems if problems < 256 else "non-zero"))))
+            fps = ["validate:exit-status"]
+        for fp in fps:
+            fails.append((fp, "exit status %d for %d file(s) with %d unparseable and %d validation message(s) (%d problems): expected %s"
+                          % (rc, len(files), n_pf, n_msg, problems, "0" if ok_all else ("%d" % problems if problems < 256 else "non-zero"))))
     return fails, files, outs
 
 
